@@ -169,16 +169,18 @@ class BaseDriver:
         # user provided arguments, defaults to None to not be mutable argument, so if its still
         # None at this point turn it into an empty dict to pass into the transports
         transport_options = transport_options or {}
+
+        self.host, self.port = self._setup_host(host=host, port=port)
+
+        # the transport gets the validated/stripped host so that it connects to what we report
         self._base_transport_args = BaseTransportArgs(
             transport_options=transport_options,
-            host=host,
-            port=port,
+            host=self.host,
+            port=self.port,
             timeout_socket=timeout_socket,
             timeout_transport=timeout_transport,
             logging_uid=logging_uid,
         )
-
-        self.host, self.port = self._setup_host(host=host, port=port)
 
         self.auth_username = auth_username
         self.auth_password = auth_password
